@@ -34,13 +34,20 @@ ASSUMPTIONS = [
     "variational slack = 2*1e-10*Y0*distance (solver tolerance, by convexity) + 1e-12*(energy scale); idempotence/batched slack = 1e-12 + "
     "2*1e-10*Y0/(3 mu) (two states both within the solver tolerance)",
     "commit invariance: |dW| <= 1e-12*energy scale + 1e-10*Y0*eqps scale, |dP| <= 1e-12*stress scale + 20*1e-10*Y0*|F^-1| (envelope theorem with a residual <= solver tolerance)",
+    "isochoric: |det Fp - 1| <= 1e-13 * steps * |Fp|_2^3; small kinematics |tr eps_p| <= accumulated rounding bound 16 eps sqrt(3/2) d_eqps (1 + (|tr Ee|/3+|Ee|)/|dev Ee|) "
+    "(the computed flow direction is traceless only to that rounding); the same bound times the pressure enters the pre-commit stress tolerance",
+    "rate-sensitive options: the overstress law has infinite slope at d_eqps = 0, so the dynamic flow stress is evaluated as an interval over d_eqps +- 2 ulp(eqps_new)",
+    "C09-N1 (rate-sensitive option: ScalarRootFind exhausts its 50 iterations and the update returns an all-NaN state) is an open known finding: a non-finite state is "
+    "attributed to it only for rate-sensitive options, an all-NaN state, and when an independent numpy location of the spec root shows the residual-tolerance band to be "
+    "narrower than one float spacing at the root or than 2^-50 of the bracket; every other non-finite state is a violation (this is how D16 fires on the pre-fix tree)",
     "D8 (batched eigen-solver at repeated eigenvalues) is an open known finding: only batched-vs-single disagreements on large-kinematics steps whose "
-    "eigen-solver input has a relative eigenvalue gap < 1e-3 in a non-axis-aligned frame are attributed to it",
+    "eigen-solver input has a repeated eigenvalue pair (gap < 1e-8 |lambda|max and < 1e-3 of the spread) in a non-axis-aligned frame are attributed to it",
 ]
 WATCHDOG_S = {"quick": 2400, "thorough": 4 * 3600}
 MAX_VACUOUS_FRACTION = 0.05
 
 D8_KEY = "D8:batched-eigen-repeated-nonaxis"
+N1_KEY = "C09-N1:rate-sensitive-rootfind-budget-exhausted"
 HARDS = [("linear", "lin"), ("voce", "voce"), ("power", "pow")]
 KINS = ["large", "small"]
 BOUNDARY = [("perfect_plasticity", "linear", "perfect"), ("voce_ysat_eq_y0", "voce", "voce_ysat_eq_y0"),
@@ -49,9 +56,11 @@ BOUNDARY_KINDS = ["monotonic", "nonproportional", "at_yield", "tiny_large", "rev
 NH = 4
 
 TIERS = {
-    #            baked sets, cases/kind/baked set, traced cases/kind, boundary baked sets, cases/kind, boundary traced cases
-    "quick": dict(nb=2, cb=1, ct=2, bnb=1, bcb=1, bct=3),
-    "thorough": dict(nb=5, cb=10, ct=60, bnb=2, bcb=8, bct=40),
+    # nb baked constant sets per option set (set 0 = upstream test constants), cb cases per kind per baked set,
+    # nt traced-constant groups per option set, ct cases per kind per traced group (fresh constants per case),
+    # bnb/bcb the same for the boundary classes, bct traced boundary cases per (class, kinematics)
+    "quick": dict(nb=2, cb=1, nt=1, ct=2, bnb=1, bcb=1, bct=3),
+    "thorough": dict(nb=5, cb=14, nt=6, ct=15, bnb=2, bcb=10, bct=60),
 }
 
 
@@ -60,8 +69,8 @@ def optname(hard, rate, kin):
 
 
 def _required():
-    req = {"steps": 8000, "plastic_steps": 3000, "elastic_steps": 1500, "var_candidates": 1000000, "idempotence_checks": 3000,
-           "commit_checks": 3000, "batched_steps": 8000, "yield_stress_committed_checks": 3000, "yield_stress_precommit_checks": 2000,
+    req = {"steps": 15000, "plastic_steps": 8000, "elastic_steps": 4000, "var_candidates": 3000000, "idempotence_checks": 8000,
+           "commit_checks": 8000, "batched_steps": 15000, "yield_stress_committed_checks": 8000, "yield_stress_precommit_checks": 5000,
            "land_elastic": 150, "land_plastic": 150, "land_within_tol_band": 20, "dummy_direction_steps": 40,
            "step_tiny": 150, "step_large": 150, "large_increment_plastic": 100, "dt_decade_-3": 300, "dt_decade_2": 300,
            "form:plane_strain": 40, "form:3d": 40, "mode:baked": 100, "mode:traced": 100,
@@ -70,8 +79,8 @@ def _required():
         for rate in (0, 1):
             for kin in KINS:
                 o = optname(hard, rate, kin)
-                req["opt:%s:steps" % o] = 500
-                req["opt:%s:plastic" % o] = 150
+                req["opt:%s:steps" % o] = 800
+                req["opt:%s:plastic" % o] = 400
     for cls in gen.KINDS:
         req["class:" + cls] = 24
     for cls, _, _ in BOUNDARY:
@@ -109,12 +118,13 @@ def build_cases(tier, seed):
                         for i in range(T["cb"]):
                             add(kind, "%s/B%d" % (o, j), hard, rate, kin, "baked", consts, kind, i, first)
                             first = False
-                first = True
-                for kind in gen.KINDS:
-                    for i in range(T["ct"]):
-                        cr = rng_of(derive_seed(seed, PROPERTY, "tconsts", o, kind, i))
-                        add(kind, "%s/T" % o, hard, rate, kin, "traced", gen.random_constants(cr, hard, rate), kind, i, first)
-                        first = False
+                for g in range(T["nt"]):
+                    first = True
+                    for kind in gen.KINDS:
+                        for i in range(T["ct"]):
+                            cr = rng_of(derive_seed(seed, PROPERTY, "tconsts", o, g, kind, i))
+                            add(kind, "%s/T%d" % (o, g), hard, rate, kin, "traced", gen.random_constants(cr, hard, rate), kind, g * 100000 + i, first)
+                            first = False
     # boundary-of-admissibility classes (rate independent: that is where the hardening slope can vanish)
     for cls, hard, bnd in BOUNDARY:
         for kin in KINS:
@@ -130,7 +140,7 @@ def build_cases(tier, seed):
             for i in range(T["bct"]):
                 cr = rng_of(derive_seed(seed, PROPERTY, "btconsts", cls, kin, i))
                 kind = BOUNDARY_KINDS[i % len(BOUNDARY_KINDS)]
-                add(cls, "%s/T" % o, hard, 0, kin, "traced", gen.random_constants(cr, hard, 0, bnd), kind, i, False)
+                add(cls, "%s/T%d" % (o, i % T["nt"]), hard, 0, kin, "traced", gen.random_constants(cr, hard, 0, bnd), kind, i, False)
     return cases
 
 
@@ -189,7 +199,7 @@ def _norm2(A):
     return float(onp.linalg.norm(A, 2))
 
 
-def _check_step(res, case, law, fns, k, H, st_old, dt, st_new, tag, info):
+def _check_step(res, case, law, fns, k, H, st_old, dt, st_new, tag, info, acc):
     """All clauses on one (H, state_old, dt) -> state_new record.  Returns dict of facts for the batched classifier."""
     upd, wp, _, _ = fns
     kin, rate, form = case["kin"], bool(case["rate"]), case["form"]
@@ -230,10 +240,18 @@ def _check_step(res, case, law, fns, k, H, st_old, dt, st_new, tag, info):
     # 2. isochoric plastic distortion / traceless plastic strain
     if kin == "large":
         kap = max(1.0, _norm2(pl_new) ** 3)
-        res.bound("isochoric_detFp", abs(float(onp.linalg.det(pl_new)) - 1.0), 1e-13 * (k + 1) * kap, ctx)
+        ddet = abs(float(onp.linalg.det(pl_new)) - 1.0)
+        res.bound("isochoric_detFp", ddet, 1e-13 * (k + 1) * kap, ctx)
+        if not (ddet < 1e-3) or not (_norm2(pl_new) < 1e6):
+            return None     # not a usable plastic distortion any more (violation recorded): the history ends here
         condp = _norm2(pl_new) * _norm2(onp.linalg.inv(pl_new))
     else:
-        res.bound("isochoric_tr_epsp", abs(float(onp.trace(pl_new))), 50 * ref.EPS * (ref.SQ32 * e_new + 1e-300) * 1.0 + 0.0, ctx)
+        # rounding bound: tr(N) of the computed flow direction is ~ eps*(|tr Ee|/3 + |Ee|)/|dev Ee| (cancellation when the
+        # deviator is formed), accumulated over the plastic steps of this history; safety factor 16
+        if plastic:
+            nEe = float(ref.fro(tq["Ee"]))
+            acc["tr"] += 16 * ref.EPS * ref.SQ32 * de * (1.0 + (abs(float(onp.trace(tq["Ee"]))) / 3.0 + nEe) / max(ndev_tr, 1e-300))
+        res.bound("isochoric_tr_epsp", abs(float(onp.trace(pl_new))), acc["tr"] + 16 * ref.EPS * float(ref.fro(pl_new)) + 1e-300, ctx)
         condp = 1.0
 
     # 3. the committed increment is admissible: eqps accounts for all of the plastic strain increment
@@ -244,21 +262,29 @@ def _check_step(res, case, law, fns, k, H, st_old, dt, st_new, tag, info):
     res.bound("increment_deviatoric", abs(float(onp.trace(D))), tol_adm, ctx)
 
     # 4. yield consistency, from the committed state (numpy strain measure) ...
+    # The overstress law S*(d_eqps/(dt*epsDot0))^(1/m) has infinite slope at d_eqps = 0, so the increment can only be
+    # recovered from the state to within u = 2 ulp(eqps_new): the dynamic flow stress is evaluated as an interval.
     dE_new = ref.elastic_dev_strain(kin, H, pl_new)
     mises_state = float(ref.mises_of_dev_strain(mu, dE_new))
-    Ydyn = float(law.flow_dynamic(e_new, de, dt))
+    u = 2.0 * float(onp.spacing(max(e_new, 1e-300))) if rate else 0.0
+    Ystat = float(law.flow_static(e_new))
+    Y_hi = Ystat + float(law.over(de + u, dt))
+    Y_lo = Ystat + float(law.over(max(de - u, 0.0), dt))
+    Ydyn = Y_hi
     tolY = (ref.TOL_SOLVER + 1e-9) * Y0 + 200 * ref.EPS * 2 * mu * (1.0 + float(ref.fro(tq["Ee"]))) * condp
-    if rate and plastic:   # rounding of the observed increment seen through the overstress law
-        tolY += float(law.over(de, dt)) / (law.m * de) * 4 * ref.EPS * max(e_new, de)
-    res.bound("yield_state", mises_state - Ydyn, tolY, dict(ctx, mises=mises_state, flow=Ydyn))
+    res.bound("yield_state", mises_state - Y_hi, tolY, dict(ctx, mises=mises_state, flow=Y_hi))
     if plastic:
-        res.bound("consistency_on_surface", abs(mises_state - Ydyn), tolY, dict(ctx, mises=mises_state, flow=Ydyn))
+        res.bound("consistency_on_surface", max(mises_state - Y_hi, Y_lo - mises_state), tolY, dict(ctx, mises=mises_state, flow_lo=Y_lo, flow_hi=Y_hi))
 
     # ... and from the library's own stress
     Finv = _norm2(onp.linalg.inv(tq["F"])) if kin == "large" else 1.0
     W_old, P_old = wp(H, st_old, dt)
     W_old, P_old = float(W_old), onp.asarray(P_old, dtype=float)
     tolY2 = tolY + 200 * ref.EPS * float(onp.linalg.norm(P_old)) * (_norm2(tq["F"]) if kin == "large" else 1.0)
+    # the computed flow direction is traceless only to rounding (see clause 2); through the implicit derivative of the
+    # pre-commit energy the pressure kappa*tr(Ee) sees that trace: |p| * |tr N| (rounding bound, safety 16)
+    trE = abs(float(onp.trace(tq["Ee"])))
+    tolY2 += law.kappa * trE * 16 * ref.EPS * ref.SQ32 * (1.0 + (trE / 3.0 + float(ref.fro(tq["Ee"]))) / max(ndev_tr, 1e-300)) * Finv
     if rate:
         m_lib = ref.mises_of_stress(kin, P_old, H)
         res.bound("yield_stress_precommit", m_lib - Ydyn, tolY2, dict(ctx, mises=m_lib, flow=Ydyn))
@@ -272,7 +298,9 @@ def _check_step(res, case, law, fns, k, H, st_old, dt, st_new, tag, info):
         # 6. commit invariance of W and P
         hard_scale = abs(float(law.energy_static(e_new)))
         sW = abs(W_new) + mu * float(ref.fro(tq["Ee"])) ** 2 + law.kappa * float(onp.trace(tq["Ee"])) ** 2 + hard_scale
-        res.bound("commit_invariance_W", abs(W_old - W_new), 1e-12 * sW + ref.TOL_SOLVER * Y0 * (abs(de) + ref.TOL_SOLVER) + 1e-300, dict(ctx, W_old=W_old, W_new=W_new))
+        # rounding of the strain measure (absolute ~ eps*(1+|Ee|)*cond) seen through the stress
+        rW = 50 * ref.EPS * (2 * mu * ndev_tr + law.kappa * abs(float(onp.trace(tq["Ee"])))) * (1.0 + float(ref.fro(tq["Ee"]))) * condp
+        res.bound("commit_invariance_W", abs(W_old - W_new), 1e-12 * sW + rW + ref.TOL_SOLVER * Y0 * (abs(de) + ref.TOL_SOLVER) + 1e-300, dict(ctx, W_old=W_old, W_new=W_new))
         sP = float(onp.linalg.norm(P_new)) + (2 * mu * float(ref.fro(tq["Ee"])) + law.kappa * abs(float(onp.trace(tq["Ee"])))) * Finv
         res.bound("commit_invariance_P", float(onp.max(onp.abs(P_old - P_new))), 1e-12 * sP + 20 * ref.TOL_SOLVER * Y0 * Finv, ctx)
         res.count("commit_checks")
@@ -314,9 +342,10 @@ def _check_step(res, case, law, fns, k, H, st_old, dt, st_new, tag, info):
     Dc = onp.concatenate(cand, axis=0)
     ec_inc = ref.SQ23 * ref.fro(Dc)
     Phi_c = ref.dev_energy_of_candidates(kin, mu, tq, Dc) + law.energy_static_diff(e_old + ec_inc, e_old) + law.rate_potential(ec_inc, dt)
-    dist = onp.abs(ec_inc - de) + ref.SQ23 * ref.fro(Dc - (D if onp.all(onp.isfinite(D)) else 0.0)[None])
+    Dref = D if onp.all(onp.isfinite(D)) else onp.zeros((3, 3))
+    dist = onp.abs(ec_inc - de) + ref.SQ23 * ref.fro(Dc - Dref[None])
     scale = mu * ndev_tr ** 2 + abs(Phi_star) + onp.abs(Phi_c)
-    tolPhi = 2 * ref.TOL_SOLVER * Y0 * dist + 1e-12 * scale + 1e-300
+    tolPhi = 2 * ref.TOL_SOLVER * Y0 * dist + 1e-12 * scale + 50 * ref.EPS * 2 * mu * ndev_tr * (1.0 + float(ref.fro(tq["Ee"]))) * condp + 1e-300
     ratio = (Phi_star - Phi_c) / tolPhi
     ok = onp.isfinite(Phi_c)
     res.count("var_candidates", int(onp.sum(ok)))
@@ -330,9 +359,9 @@ def _check_step(res, case, law, fns, k, H, st_old, dt, st_new, tag, info):
         gaps = [ref.spectral_info(tq["Ce"])]
         if plastic and onp.all(onp.isfinite(D)):
             gaps.append(ref.spectral_info(D))
-        facts["min_gap"] = min(g for g, _ in gaps)
-        facts["repeated_nonaxis"] = any(g < 1e-3 and not ax for g, ax in gaps)
-        if any(g < 1e-8 for g, _ in gaps):
+        facts["min_gap"] = min(g[0] for g in gaps)
+        facts["repeated_nonaxis"] = ref.d8_class(gaps)
+        if any(g[0] < 1e-8 and g[0] < 1e-3 * g[2] for g in gaps):
             res.count("repeated_pair_inputs_single")
     return facts
 
@@ -347,6 +376,7 @@ def run_case(case):
     H = [onp.zeros((3, 3)) for _ in range(B)]
     st = [init.copy() for _ in range(B)]
     alive = [True] * B
+    accs = [{"tr": 0.0} for _ in range(B)]
     res.count("mode:" + case["mode"])
     res.count("form:" + case["form"])
     res.count("histories", B)
@@ -368,28 +398,42 @@ def run_case(case):
             if not alive[i]:
                 continue
             ctx = {"history": i, "step": k, "tag": tags[i], "dt": dts[i]}
+            e_old_i, pl_old_i = ref.split_state(st[i])
+            trial_i = float(ref.mises_of_dev_strain(law.mu, ref.trial_quantities(kin, Hn[i], pl_old_i)["devEe"]))
             if not onp.all(onp.isfinite(new[i])):
+                # a non-finite state refutes every clause.  The only recognised mechanism is the open finding C09-N1
+                # (rate-sensitive option, root finder budget exhausted), identified by its structural signature.
                 res.count("nonfinite_states")
-                e_old, pl_old = ref.split_state(st[i])
-                tq = ref.trial_quantities(kin, Hn[i], pl_old)
-                trial = float(ref.mises_of_dev_strain(law.mu, tq["devEe"]))
-                res.violate("finite_state", dict(ctx, state_new=new[i], H=Hn[i], state_old=st[i],
-                                                 trial_minus_flow_over_Y0=(trial - float(law.flow_static(e_old))) / law.Y0,
-                                                 hardening_slope=float(law.slope_static(e_old))), None)
+                sig = ref.rootfind_budget_signature(law, trial_i, e_old_i, dts[i])
+                mech = N1_KEY if (case["rate"] and sig["match"] and onp.all(onp.isnan(new[i]))) else None
+                if mech:
+                    res.count("nonfinite_states_N1")
                 res.checks += 1
-                alive[i] = False
+                res.violate("finite_state" + ("[N1 class]" if mech else ""),
+                            dict(ctx, state_new=new[i], H=Hn[i], state_old=st[i], trial_minus_flow_over_Y0=(trial_i - float(law.flow_static(e_old_i))) / law.Y0,
+                                 hardening_slope=float(law.slope_static(e_old_i)), rootfind=sig), mech)
+                # the step is not committed; the history continues from the last finite state
                 continue
             res.checks += 1
-            facts = _check_step(res, case, law, fns, k, Hn[i], st[i], dts[i], new[i], tags[i], infos[i])
+            facts = _check_step(res, case, law, fns, k, Hn[i], st[i], dts[i], new[i], tags[i], infos[i], accs[i])
+            if facts is None:
+                alive[i] = False
+                res.count("histories_ended_by_gross_violation")
+                continue
             # batched replica (cross-check)
             _, pl_new = ref.split_state(new[i])
             tolB = 1e-12 * max(1.0, float(onp.max(onp.abs(new[i])))) + 2 * ref.TOL_SOLVER * law.Y0 / (3 * law.mu) * ref.SQ32 * max(1.0, _norm2(pl_new))
             dB = float(onp.max(onp.abs(stB[i] - new[i]))) if onp.all(onp.isfinite(stB[i])) else float("nan")
             mech = D8_KEY if (kin == "large" and facts["repeated_nonaxis"]) else None
+            if mech is None and case["rate"] and onp.all(onp.isnan(stB[i])):
+                sig = ref.rootfind_budget_signature(law, trial_i, e_old_i, dts[i])
+                if sig["match"]:
+                    mech = N1_KEY
+                    res.count("nonfinite_batched_N1")
             res.count("batched_steps")
             if facts["repeated_nonaxis"]:
                 res.count("batched_steps_in_D8_class")
-            res.bound("batched_equals_single" + ("[D8 class]" if mech else ""), dB, tolB, dict(ctx, min_rel_gap=facts["min_gap"], H=Hn[i], state_old=st[i]), mech)
+            res.bound("batched_equals_single" + ("[D8 class]" if mech == D8_KEY else "[N1 class]" if mech else ""), dB, tolB, dict(ctx, min_rel_gap=facts["min_gap"], H=Hn[i], state_old=st[i]), mech)
             H[i], st[i] = Hn[i], new[i]
     if res.obs.get("plastic_steps", 0) > 0:
         res.nontrivial = True
@@ -407,3 +451,17 @@ def finalize(results, tier):
     for (o, k), v in sorted(worst.items()):
         per_opt.setdefault(o, {})[k] = round(v, 4) if math.isfinite(v) else "inf"
     return {"closest_calls_per_option": per_opt}
+
+
+def on_exception(case, exc, res):
+    """An exception raised from inside the library for an admissible input refutes the property (the update must
+    succeed); anything raised by the harness itself stays inconclusive."""
+    import traceback
+    frames = traceback.extract_tb(exc.__traceback__)
+    lib = [f for f in frames if "/optimism/" in f.filename.replace("\\", "/")]
+    if not lib:
+        return False
+    res.checks += 1
+    res.violate("library_call_raised", {"exception": "%s: %s" % (type(exc).__name__, str(exc)[:300]),
+                                        "where": "%s:%d %s" % (lib[-1].filename, lib[-1].lineno, lib[-1].name)}, None)
+    return True
